@@ -519,7 +519,8 @@ class SynthObject(gpp.UGenParameter, metaclass=MetaSynthObject):
             # for input in self._antecedents:  # ?
             for input in self.inputs:
                 if isinstance(input, UGen) and input._descendants:
-                    input._descendants.remove(self)
+                    # The same object can be used by more than one input.
+                    input._descendants.discard(self)
                     input._optimize_graph()
             self._synthdef._remove_ugen(self)
             return True
